@@ -22,9 +22,10 @@ func PropC14Live(c *vs.Case, kind string, env *C20Env, drv C20Driver) error {
 	child := c.PickStr("widgets", "configmaps")
 	nOps := 2 + c.Int(4)
 	finalize := c.Bool()
+	ignoreStatus := c.Bool() // ignoreStatusChanges: parent updates that change nothing but status are not queued
 	var log []string
 	c.Describe(func() any {
-		return map[string]any{"kind": kind, "child": child, "finalizeHook": finalize, "ops": log}
+		return map[string]any{"kind": kind, "child": child, "finalizeHook": finalize, "ignoreStatusChanges": ignoreStatus, "ops": log}
 	})
 	d := env.W.Sim.Def(child)
 	field := "spec"
@@ -48,6 +49,9 @@ func PropC14Live(c *vs.Case, kind string, env *C20Env, drv C20Driver) error {
 		}
 		if !strings.HasSuffix(u, "/sync") {
 			return nil
+		}
+		if strings.Contains(u, "/live2/") {
+			return map[string]any{"children": []any{}, "attachments": []any{}, "status": map[string]any{"seen": true}}
 		}
 		var parent map[string]any
 		for _, k := range []string{"parent", "object"} {
@@ -75,12 +79,18 @@ func PropC14Live(c *vs.Case, kind string, env *C20Env, drv C20Driver) error {
 	if kind == "composite" {
 		obj := spec.CompositeObj("live", nil)
 		obj.SetGeneration(1)
+		if ignoreStatus {
+			obj.Spec.ParentResource.IgnoreStatusChanges = &ignoreStatus
+		}
 		if err := env.K8s.Create(ctx, obj); err != nil {
 			return fmt.Errorf("harness: %v", err)
 		}
 	} else {
 		obj := spec.DecoratorObj("live", nil)
 		obj.SetGeneration(1)
+		if ignoreStatus {
+			obj.Spec.Resources[0].IgnoreStatusChanges = &ignoreStatus
+		}
 		if err := env.K8s.Create(ctx, obj); err != nil {
 			return fmt.Errorf("harness: %v", err)
 		}
@@ -132,7 +142,15 @@ func PropC14Live(c *vs.Case, kind string, env *C20Env, drv C20Driver) error {
 		return true
 	}
 	if !pollFor(10*time.Second, converged) {
-		return vs.Violf("C20/running-controller-deaf", "10 s after the controller was started the children of the existing parents are not in place")
+		var reqs []string
+		for _, r := range env.W.Sim.LogSince(0) {
+			if r.Mutating() || r.Code >= 400 {
+				reqs = append(reqs, fmt.Sprintf("%s %s %s/%s %s -> %d %s", r.Verb, r.Def.Resource, r.Namespace, r.Name, r.Subresource, r.Code, r.Message))
+			}
+		}
+		n1, _ := env.Router.callsAboutSince(prefix, "p1", time.Time{})
+		n2, _ := env.Router.callsAboutSince(prefix, "p2", time.Time{})
+		return vs.Violf("C20/running-controller-deaf", "10 s after the controller was started the children of the existing parents are not in place (sync-hook calls: p1 %d, p2 %d; requests: %v)", n1, n2, reqs)
 	}
 	quiet := func() bool {
 		return pollFor(3*time.Second, func() bool {
@@ -200,6 +218,66 @@ func PropC14Live(c *vs.Case, kind string, env *C20Env, drv C20Driver) error {
 			time.Sleep(60 * time.Millisecond)
 			if n, _ := env.Router.callsAboutSince(prefix, other, since); n > 0 {
 				return vs.Violf("C14/wrong-parent-enqueued", "live controller (%s): %q concerns the child of ns1/%s only, yet the sync hook was called %d time(s) for ns1/%s", kind, what, p, n, other)
+			}
+		}
+	}
+	// A second controller for the same parent resource starts while the first one runs: its handlers are added to
+	// informers that are already warm, so all it gets for the existing parents is the replay of the cache (the same
+	// object as old and new). It must sync them all the same - with ignoreStatusChanges too: a replay is not a
+	// status change.
+	if c.Bool() {
+		if !quiet() {
+			return fmt.Errorf("harness: the controller keeps syncing without any change")
+		}
+		other := "configmaps"
+		if child == "configmaps" {
+			other = "widgets"
+		}
+		spec2 := c20Spec{Version: 2, Variant: "plain", Parent: "things", Child: other, Valid: true}
+		if kind == "composite" {
+			obj := spec2.CompositeObj("live2", nil)
+			obj.SetGeneration(1)
+			if ignoreStatus {
+				obj.Spec.ParentResource.IgnoreStatusChanges = &ignoreStatus
+			}
+			if err := env.K8s.Create(ctx, obj); err != nil {
+				return fmt.Errorf("harness: %v", err)
+			}
+		} else {
+			obj := spec2.DecoratorObj("live2", nil)
+			obj.SetGeneration(1)
+			if ignoreStatus {
+				obj.Spec.Resources[0].IgnoreStatusChanges = &ignoreStatus
+			}
+			if err := env.K8s.Create(ctx, obj); err != nil {
+				return fmt.Errorf("harness: %v", err)
+			}
+		}
+		since := time.Now()
+		if err := drv.Reconcile("live2"); err != nil {
+			return fmt.Errorf("harness: reconcile live2: %v", err)
+		}
+		defer func() {
+			if kind == "composite" {
+				_ = env.K8s.Delete(ctx, &v1alpha1.CompositeController{ObjectMeta: metav1.ObjectMeta{Name: "live2"}})
+			} else {
+				_ = env.K8s.Delete(ctx, &v1alpha1.DecoratorController{ObjectMeta: metav1.ObjectMeta{Name: "live2"}})
+			}
+			func() {
+				defer func() { _ = recover() }()
+				_ = drv.Reconcile("live2")
+			}()
+		}()
+		log = append(log, "second controller started on the warm informers")
+		c.Class("second-controller-on-warm-informers")
+		prefix2 := spec2.urlPrefix("live2") + "sync"
+		for _, p := range parents {
+			if env.W.Sim.Get("things", "ns1", p) == nil {
+				continue
+			}
+			pp := p
+			if !pollFor(10*time.Second, func() bool { n, _ := env.Router.callsAboutSince(prefix2, pp, since); return n > 0 }) {
+				return vs.Violf("C20/running-controller-deaf", "a second %s controller (ignoreStatusChanges=%v) was started for a parent resource whose informer is already running; 10 s later it has not synced the existing parent ns1/%s", kind, ignoreStatus, pp)
 			}
 		}
 	}
